@@ -90,9 +90,12 @@ Proof. exact failed_flip_reaction. Qed.
 Print Assumptions C08_failed_flip_reaction_regenerated.
 
 (* ... every pointer replacement -- including those whose response was lost -- replaced exactly the version its committer
-   validated, the table is the serial application of the replacements, every acknowledged commit is among them, once *)
+   validated, the table is the serial application of the replacements, every acknowledged commit is among them, once.
+   (xrun_p true: the machine in which no pointer write lands between a refused-although-applied write and its read-back, see
+   C08_acknowledged_iff_applied_* below; for schedules without such writes -- all of the failing-write alphabet -- it is the
+   unrestricted machine: prompt_irrelevant_without_pending.) *)
 Theorem C08_faulted_no_lost_update : forall c atomic m0 kind mr xs, cas c = true ->
-  let w := xw (xrun c atomic (xinit (init_world m0 kind mr)) xs) in
+  let w := xw (xrun_p true c atomic (xinit (init_world m0 kind mr)) xs) in
   Forall (fun p => fst p = snd p) (w_repl w)
   /\ m_ops (file w (w_ptr w)) = m_ops m0 ++ map snd (w_hist w)
   /\ NoDup (map snd (w_hist w))
@@ -105,7 +108,7 @@ Print Assumptions C08_faulted_no_lost_update.
    committer may have landed a version with the same number meanwhile); once the exception has left commit() the
    committer is finished, and its commit is in the table exactly when the store had applied its write *)
 Theorem C08_failed_write_never_acknowledged : forall c atomic m0 kind mr xs a, cas c = true ->
-  let X := xrun c atomic (xinit (init_world m0 kind mr)) xs in
+  let X := xrun_p true c atomic (xinit (init_world m0 kind mr)) xs in
   In a (x_failed X) ->
   a_pc (w_actors (xw X) a) <> PDone Success
   /\ (x_err X a = None ->
@@ -113,6 +116,35 @@ Theorem C08_failed_write_never_acknowledged : forall c atomic m0 kind mr xs a, c
       \/ (a_pc (w_actors (xw X) a) = PDone AbortedPost /\ In a (map snd (w_hist (xw X))))).
 Proof. exact failed_write_never_acknowledged. Qed.
 Print Assumptions C08_failed_write_never_acknowledged.
+
+(* ---- the store REFUSES a write it has APPLIED (XFlipResent: the SDK re-sent a PutObject whose response was lost, and the
+   re-sent copy of the conditional request is refused because the first one landed).  What the commit point does about a
+   refusal is regenerated from _write_hint_at_commit_point / _hint_write_landed: it reads the pointer back, and the write
+   counts as landed iff the pointer's content is exactly OUR file name (never the version NUMBER).  A source that calls
+   every refusal a conflict makes this statement -- and with it the next one -- fail to check. *)
+Theorem C08_refusal_read_back_regenerated :
+  gen_refused_reads_back = true /\ (forall names_ours, gen_write_landed names_ours = names_ours).
+Proof. exact (conj refused_reads_back write_landed_spec). Qed.
+Print Assumptions C08_refusal_read_back_regenerated.
+
+(* An attempt is at / past its commit point EXACTLY when the store applied its pointer write; nobody is told "conflict" about
+   a write the store applied (x_misreported = []: nobody discards the file the pointer names, nobody commits the same
+   operation twice: NoDup); acknowledged => applied; applied => acknowledged at the release, unless an error / interrupt
+   reached the caller after the write (AbortedPost).  For every schedule of protocol steps, failing pointer writes and
+   refused-although-applied pointer writes, any lock, the read-back a step of its own -- the FULL statement (any schedule) is
+   false: if another committer validates the landed version and replaces the pointer BEFORE the read-back, the read-back
+   sees a foreign name and the applied write is reported as a conflict (superseded_witness; needs a lock that does not
+   exclude, or a lease that lapses between two consecutive requests of the committer, on top of the SDK-level re-send) ... *)
+Definition C08_acknowledged_iff_applied_full : Prop := forall prompt, acked_iff_applied_for prompt.
+Theorem C08_acknowledged_iff_applied_refuted : ~ C08_acknowledged_iff_applied_full.
+Proof. exact acknowledged_iff_applied_full_refuted. Qed.
+Print Assumptions C08_acknowledged_iff_applied_refuted.
+
+(* ... and it holds under the exact extra hypothesis that no pointer write lands between a refused-although-applied write
+   and its read-back (prompt = true) *)
+Theorem C08_acknowledged_iff_applied_partial : acked_iff_applied_for true.
+Proof. exact acknowledged_iff_applied_prompt. Qed.
+Print Assumptions C08_acknowledged_iff_applied_partial.
 
 (* ---- commit()'s FALLBACK (Model/PtrFallback.v): the pointer object read with its ETag is unusable (absent / bytes that name
    nothing / the name of a missing file), `current = self.refresh()` re-reads the pointer and recovers the latest version
@@ -270,4 +302,29 @@ Example C08_fallback_nonvacuous :
                   [ rx 0 (EBegin 0); rx 0 (ELockTry true); rx 0 (EValidate 0 true); rx 0 (EMetaW 100); RDamage; RBegin 1 1 ]%nat 0 = inr i)
   /\ (exists X, rrun_strict c false (rinit ex_init) lost_update_witness 0 = inl X /\ r_inexact X = 2%nat
                 /\ a_pc (w_actors (rw X) 1%nat) = PDone Success /\ m_ops (file (rw X) (w_ptr (rw X))) = [0; 2]%nat).
+Proof. vm_compute. repeat split; eexists; repeat split. Qed.
+
+(* Non-vacuity of the refused-although-applied theorems (lock that excludes nobody; both actors validated version 0).
+   (1) accepted by the PROMPT machine: actor 0's write is applied, the re-sent copy refused; it reads the pointer back, finds
+   its own file name, releases: acknowledged; actor 1's write is (genuinely) refused and it retries.  (2) the prompt machine
+   does not let actor 1 land a write while actor 0's read-back is pending; (3) the unrestricted machine does, and actor 0's
+   applied write is then reported to it as a conflict (the refutation witness, step by step). *)
+Example C08_resent_nonvacuous :
+  let c := {| cas := true; lockkind := GrantAll |} in
+  let pre := [ xe 0 (EBegin 0); xe 1 (EBegin 0); xe 0 (ELockTry true); xe 1 (ELockTry true);
+               xe 0 (EValidate 0 true); xe 1 (EValidate 0 true); xe 0 (EMetaW 100); xe 1 (EMetaW 100);
+               xe 0 (EFence true); xe 1 (EFence true) ]%nat in
+  (exists X, xrun_strict_p true c false (xinit ex_init)
+               (pre ++ [ XFlipResent 0; xe 1 (EFlip false); XReadBack 0; xe 0 ERelease; xe 1 ERelease ])%nat 0 = inl X
+     /\ a_pc (w_actors (xw X) 0%nat) = PDone Success /\ a_pc (w_actors (xw X) 1%nat) = PIdle
+     /\ map snd (w_hist (xw X)) = [0]%nat /\ x_misreported X = [] /\ x_npending X = 0%nat)
+  /\ (exists i, xrun_strict_p true c false (xinit ex_init)
+               (pre ++ [ XFlipResent 0; xe 1 (EFlip false); xe 1 ERelease;
+                         xe 1 (EBegin 1); xe 1 (ELockTry true); xe 1 (EValidate 1 true); xe 1 (EMetaW 100); xe 1 (EFence true);
+                         xe 1 (EFlip true) ])%nat 0 = inr i)
+  /\ (exists X, xrun_strict c false (xinit ex_init) superseded_witness 0 = inl X
+     /\ x_misreported X = [0]%nat /\ a_pc (w_actors (xw X) 0%nat) = PIdle /\ map snd (w_hist (xw X)) = [0; 1]%nat)
+  /\ (* while the read-back is pending the committer does nothing else; a write that cannot be applied cannot be "resent" *)
+     (exists i, xrun_strict c false (xinit ex_init) (pre ++ [ XFlipResent 0; xe 0 ERelease ])%nat 0 = inr i)
+  /\ (exists i, xrun_strict c false (xinit ex_init) (pre ++ [ xe 1 (EFlip true); XFlipResent 0 ])%nat 0 = inr i).
 Proof. vm_compute. repeat split; eexists; repeat split. Qed.
